@@ -24,6 +24,9 @@ def qualifier(inv, case, ev):
     op = ev.get('op', '')
     if inv == 'Reach':
         return 'pairwise-unreachable' if case.get('unreach_mode') == 'pairwise' else 'location-unreachable'
+    if inv in ('LimitDistance', 'LimitDuration') and not case.get('metric', True) and (inv == 'LimitDistance' or case.get('travel_only')):
+        # removing a stop makes the way longer when the matrix breaks the triangle inequality; removals are not re-checked
+        return 'non-metric-matrix'
     if inv == 'LimitDuration':
         return 'travel-only' if case.get('travel_only') else 'service-or-waiting'
     if inv in ('CacheFresh', 'FitnessFunctionOfTours'):
